@@ -42,6 +42,18 @@ type MatchCase struct {
 	// event (2) some events, like join does (per event, 0 = pass). While it waits for the next event of the
 	// stream it is "busy" - which must not change what the selectors of the OTHER actions decide.
 	HoldTail []int `json:"hold_tail,omitempty"`
+	// Parallel > 0: the pipeline keeps its processors, that many sources feed the event list Copies times
+	// each at the same time, so several processors evaluate the same selectors concurrently (the
+	// selector's configuration is one object shared by all processors)
+	Parallel int `json:"parallel,omitempty"`
+	Copies   int `json:"copies,omitempty"`
+}
+
+func (c *MatchCase) copies() int {
+	if c.Parallel > 0 && c.Copies > 0 {
+		return c.Parallel * c.Copies
+	}
+	return 1
 }
 
 func genMatch(t *rapid.T) MatchCase {
@@ -64,6 +76,25 @@ func genMatch(t *rapid.T) MatchCase {
 	}
 	for _, e := range evs {
 		c.Events = append(c.Events, e.Encode())
+	}
+	if rapid.IntRange(0, 5).Draw(t, "parallel") == 0 {
+		c.Parallel = rapid.IntRange(2, 8).Draw(t, "nsources")
+		c.Copies = rapid.SampledFrom([]int{5, 40, 40, 300}).Draw(t, "copies")
+		// one selector lists every value some field takes in these events behind a value none of them has,
+		// so different events are matched by different, non-first entries of one list
+		pi := pickPath(t, "parallel/path", paths, false)
+		vals, seen := []string{"value-of-no-event"}, map[string]bool{}
+		for _, n := range pi.nodes {
+			if n.Kind == 's' && !seen[n.Str] && !strings.HasPrefix(n.Str, "/") {
+				seen[n.Str] = true
+				vals = append(vals, n.Str)
+			}
+		}
+		if len(vals) >= 3 {
+			c.Sels = append(c.Sels, Sel{Mode: "and", Conds: []Cond{{Path: pi.path, Values: vals}}})
+			c.StringForm = append(c.StringForm, []bool{false})
+		}
+		return c
 	}
 	if rapid.IntRange(0, 2).Draw(t, "hold_tail") == 0 {
 		for i := range c.Events {
@@ -293,7 +324,7 @@ func actionsJSON(c MatchCase) ([]byte, error) {
 // status: "" ok, "bad-case", "rejected-config:<err>", "not-admitted", "timeout".
 func observe(c MatchCase) (called map[[2]int64]int, status string) {
 	registerProbe()
-	rec := &recorder{called: map[[2]int64]int{}, want: len(c.Events), done: make(chan struct{})}
+	rec := &recorder{called: map[[2]int64]int{}, want: len(c.Events) * c.copies(), done: make(chan struct{})}
 	curRec.Store(rec)
 
 	st := fdkit.DefaultSettings()
@@ -302,7 +333,9 @@ func observe(c MatchCase) (called map[[2]int64]int, status string) {
 	st.MaintenanceInterval = time.Second
 	st.Antispam.MaintenanceInterval = time.Second
 	p := fdkit.NewPipeline(fdkit.UniqueName("c14"), st)
-	p.DisableParallelism()
+	if c.Parallel == 0 {
+		p.DisableParallelism()
+	}
 	p.SetInput(&pipeline.InputPluginInfo{
 		PluginStaticInfo:  &pipeline.PluginStaticInfo{Type: "verif_c14_in"},
 		PluginRuntimeInfo: &pipeline.PluginRuntimeInfo{Plugin: &probeInput{rec: rec}},
@@ -345,11 +378,34 @@ func observe(c MatchCase) (called map[[2]int64]int, status string) {
 	}
 	p.Start()
 	admitted := true
-	for i, e := range c.Events {
-		if p.In(pipeline.SourceID(1), "c14", pipeline.NewOffsets(int64(i+1), nil), []byte(e), false, nil) == pipeline.EventSeqIDError {
-			admitted = false
-			rec.commit() // keep the count right
+	if c.Parallel == 0 {
+		for i, e := range c.Events {
+			if p.In(pipeline.SourceID(1), "c14", pipeline.NewOffsets(int64(i+1), nil), []byte(e), false, nil) == pipeline.EventSeqIDError {
+				admitted = false
+				rec.commit() // keep the count right
+			}
 		}
+	} else {
+		// copy r of event i carries the offset r*len(events)+i+1; source k feeds the copies k*Copies..(k+1)*Copies-1
+		var wg sync.WaitGroup
+		var refused atomic.Bool
+		for k := 0; k < c.Parallel; k++ {
+			wg.Add(1)
+			go func(k int) {
+				defer wg.Done()
+				for r := k * c.Copies; r < (k+1)*c.Copies; r++ {
+					for i, e := range c.Events {
+						off := int64(r*len(c.Events) + i + 1)
+						if p.In(pipeline.SourceID(k+1), "c14", pipeline.NewOffsets(off, nil), []byte(e), false, nil) == pipeline.EventSeqIDError {
+							refused.Store(true)
+							rec.commit()
+						}
+					}
+				}
+			}(k)
+		}
+		wg.Wait()
+		admitted = !refused.Load()
 	}
 	timedOut := false
 	select {
@@ -418,7 +474,7 @@ func runMatch(c MatchCase) *vkit.Outcome {
 		}
 		evs = append(evs, n)
 	}
-	if len(c.Sels) == 0 || len(evs) == 0 {
+	if len(c.Sels) == 0 || len(evs) == 0 || c.Parallel < 0 || c.Parallel > 16 || c.Copies < 0 || c.Copies > 100 || (c.Parallel > 0 && len(c.HoldTail) > 0) {
 		o.Class("bad-case")
 		return o
 	}
@@ -460,13 +516,18 @@ func runMatch(c MatchCase) *vkit.Outcome {
 	if len(c.HoldTail) > 0 {
 		o.Class("match-join-like-action-behind-the-selectors")
 	}
+	if c.Parallel > 0 {
+		o.Class("match-several-processors-at-once")
+	}
 
 	nT, nF, nU := 0, 0, 0
 	anyNontrivial := false
 	for ai, s := range c.Sels {
 		selT, selF := 0, 0
-		for ei, ev := range evs {
-			calls := called[[2]int64{int64(ai), int64(ei + 1)}]
+		for ri := 0; ri < len(evs)*c.copies(); ri++ {
+			ei := ri % len(evs)
+			ev := evs[ei]
+			calls := called[[2]int64{int64(ai), int64(ri + 1)}]
 			if calls > 1 {
 				o.Failf(P, "match-action-called-twice", "action %d called %d times for event %s", ai, calls, c.Events[ei])
 				return o
